@@ -491,6 +491,9 @@ def _probes():
     add("tensor_entrywise_abs", tn.tensor_entrywise_abs, lambda c: [Q(c["T3"])])
     add("rgb_to_quat", ql.rgb_to_quat, lambda c: [np.ascontiguousarray(c["img"][..., 1:])])
     add("quat_to_rgb", ql.quat_to_rgb, lambda c: [c["img"].copy()])
+    # colour values in [-0.25, 1.25] (mild ringing after a restoration step): the range where the documented clipping acts
+    add("quat_to_rgb[values slightly outside 0..1]", ql.quat_to_rgb,
+        lambda c: [(c["img"] / max(float(np.max(c["img"])), 1e-300)) * 1.5 - 0.25])
     add("split_quat_channels", ql.split_quat_channels, lambda c: [c["img"].copy()])
     add("stack_quat_channels", ql.stack_quat_channels, lambda c: [np.ascontiguousarray(c["img"][..., k]) for k in range(4)])
     add("apply_blur_fft", ql.apply_blur_fft, lambda c: [c["img"].copy(), c["psf"].copy()])
@@ -521,7 +524,7 @@ def probes():
     return _PROBE_CACHE["p"]
 
 
-N_PROBES = 126   # upper bound used by the generator; indices are taken modulo the real table length
+N_PROBES = 127   # upper bound used by the generator; indices are taken modulo the real table length
 
 
 @st.composite
@@ -539,7 +542,13 @@ def mutation_cases(draw, tier):
     H = gen.make_hermitian(draw(gen.qarray(q, q, "generic"))[0])
     # structured variants reach the special-case branches (identity reflectors, zero pivots, early exits)
     struct = draw(st.sampled_from(["dense", "dense", "zero_first_subcolumn", "block_diagonal", "diagonal", "zero_column",
-                                   "already_reduced", "permutation"]))
+                                   "already_reduced", "permutation", "nearly_hermitian"]))
+    if struct == "nearly_hermitian" and q >= 2:
+        # Hermitian up to a relative 1e-12 .. 1e-7 (assembled from rounded / single-precision data): accepted by the
+        # tolerant Hermitian tests of the eigen / determinant routines, so "clean-up" code paths run
+        H = H.copy()
+        H[0, q - 1] = H[0, q - 1] * (1.0 + draw(st.sampled_from([1e-12, 1e-10, 1e-8, 1e-7])))
+        H[1, 0, 2] += draw(st.sampled_from([1e-12, 1e-9, 1e-7])) * (abs(H[1, 0, 2]) + 1.0)
     if struct == "zero_first_subcolumn":
         H[1:, 0] = 0.0
         H[0, 1:] = 0.0
@@ -580,6 +589,11 @@ def mutation_cases(draw, tier):
     T3 = draw(gen.qarray(2 * 3, 2, "generic"))[0].reshape(2, 3, 2, 4)
     ih, iw = draw(st.integers(2, 5)), draw(st.integers(2, 5))
     img = np.abs(draw(gen.qarray(ih, iw, "generic"))[0]) / 4.0
+    img_kind = draw(st.sampled_from(["raw", "unit_range", "ringing", "ringing"]))
+    if img_kind != "raw" and img.max() > 0:
+        img = img / img.max()                                  # colour values in [0, 1]
+        if img_kind == "ringing":
+            img = img * 1.5 - 0.25                             # mild over- and undershoot, as after a deblurring step
     psf = np.array([[0.0, 0.125, 0.0], [0.125, 0.5, 0.125], [0.0, 0.125, 0.0]])
     if draw(st.booleans()):
         # any kernel shape, including even extents and kernels larger than the image (documented: "pad/crop")
